@@ -481,7 +481,7 @@ func (c *checker) attribute(x *execRun, who string, task, pred map[int]*span, by
 			}
 		case progen.Panic:
 			anyFailure = true
-			if isPanic && safeEq(pe.Value, x.panicVal(0, id, 0)) {
+			if isPanic && panicEq(pe.Value, x.panicVal(0, id, 0)) {
 				ok = true
 			}
 		case progen.Goexit:
@@ -497,7 +497,7 @@ func (c *checker) attribute(x *execRun, who string, task, pred map[int]*span, by
 			continue
 		}
 		anyFailure = true
-		if isPanic && safeEq(pe.Value, x.panicVal(3, id, 0)) {
+		if isPanic && panicEq(pe.Value, x.panicVal(3, id, 0)) {
 			ok = true
 		}
 	}
@@ -666,7 +666,7 @@ func (c *checker) checkTaskEvents(x *execRun, who string, k int, name string, in
 					c.add("C18", "task-event-payload", "%s emitter %d: task %s: %s carries %v, the task returned %v", who, k, name, emNames[e.Kind], e.Err, x.errOf(kind, id, 0))
 				}
 			case EmTaskPanic, EmTaskPanicRecovered:
-				if !safeEq(e.PV, x.panicVal(kind, id, 0)) {
+				if !panicEq(e.PV, x.panicVal(kind, id, 0)) {
 					c.add("C18", "task-event-payload", "%s emitter %d: task %s: %s carries %v, the task panicked with %v", who, k, name, emNames[e.Kind], e.PV, x.panicVal(kind, id, 0))
 				}
 			}
@@ -945,11 +945,23 @@ func (c *checker) checkPar(x *execRun) {
 			}
 			var pe *cff.PanicError
 			if !hit && errors.As(e, &pe) {
+				// one-to-one: several injected panics may be indistinguishable (runtime errors)
+				first := -1
 				for i, w := range wantPanics {
-					if safeEq(pe.Value, w) {
-						usedP[i]++
-						hit = true
+					if !panicEq(pe.Value, w) {
+						continue
 					}
+					if first < 0 {
+						first = i
+					}
+					if usedP[i] == 0 {
+						first = i
+						break
+					}
+				}
+				if first >= 0 {
+					usedP[first]++
+					hit = true
 				}
 				if !hit {
 					c.add("C04", "wrong-panic-value", "%s: returned PanicError carries %v, which no user function panicked with", who, pe.Value)
@@ -1049,7 +1061,7 @@ func outcomeDigest(res *Result) uint64 {
 				if errors.Is(x.err, x.errOf(0, id, 0)) {
 					att = uint64(id)
 				}
-				if isPanic && safeEq(pe.Value, x.panicVal(0, id, 0)) {
+				if isPanic && panicEq(pe.Value, x.panicVal(0, id, 0)) {
 					att = uint64(id) | 0x100
 				}
 			}
